@@ -1,54 +1,64 @@
 /-
-Props/C07Str.lean — C07 for string pattern sets: the target `c07_string_target` of
-`Props/Targets.lean` ("each occurrence is reported exactly once, whatever the event log") is
-FALSE for the model as it stands — finding.
+Props/C07Str.lean — C07 ("each occurrence of each pattern is reported exactly once, whatever the
+heuristic answers, hash orders and host") for string pattern sets.
 
-The replay `Automaton.mainLoop` accepts ANY `Topo s` event whose state exists (guard c1 only checks
-`containsNode`): it does not require that a state is emitted at most once, nor that its
-predecessors have been emitted before (what `OnlineToposort::next` guarantees in the Rust code:
-`is_ready` and the `visited` set; cf. `Model/Toposort.lean`). The guarded build therefore succeeds
-on logs that no run of the Rust builder produces, and for those the SET of reported matches is
-still right (T-BUILD, `c01_c02_string` quantify over all logs) but the MULTIPLICITIES are not.
+1. FINDING: the target `c07_string_target` of `Props/Targets.lean`, which quantifies over ALL
+   event logs the undisciplined replay `Automaton.build` accepts, is FALSE
+   (`c07_string_target_false`, `c07_string_nodup_false`, by `rfl` on a concrete run). The replay
+   `Automaton.mainLoop` accepts ANY `Topo s` event whose state exists; it does not require that a
+   state is emitted at most once, after its predecessors (what `OnlineToposort::next` guarantees in
+   the Rust code). The SET of reported matches is still right for such logs (T-BUILD,
+   `c01_c02_string` quantify over all logs), the MULTIPLICITIES are not. The counterexample log
+   `C07.cexEvs` for the patterns `$x b`, `a b $x d`, `a b c d` (`C07.cexPats`):
+   1. `Topo 0` (root): the two `'a' at 0` transitions are fused into state 9; `'b' at 1`
+      (pattern 0) moves under the root's fallback state 5; the heuristic answers "no".
+   2. `Topo 9`: the two `'b' at 1` transitions are fused into state 2; "no".
+   3. `Topo 2`: tree = `'c' at 2`; `'d' at 3` moves under the fallback state 6; "yes": state 2 is
+      deterministic, its constraint child 7 gets a copy `'d' at 3 → 4` of the fallback transition
+      (state 4 accepts pattern 1).
+   4. `Topo 7`: its own `'d' at 3 → 8` and the copy `'d' at 3 → 4` are fused into state 3, which
+      now accepts patterns 2 and 1; state 4 stays (reachable from the fallback state 6). Pattern 1
+      is now accepted at the two states 3 and 4 — harmless as long as state 2 is deterministic.
+   5. `Topo 0` AGAIN: "yes"; the root is determinised and its constraint child 9 gets the copy
+      `'b' at 1 → 1` of the fallback transition.
+   6. `Topo 9` AGAIN: `'b' at 1 → 2` and `'b' at 1 → 1` are fused into the fresh,
+      NON-deterministic state 8, which clones the transitions of the deterministic state 2 (then
+      removed). The determinism of 2 is lost: from 8 both `'c' at 2 → 7` and the fallback `→ 6`
+      are followed, and on the host `abcd` the traversal reaches 3 (via 7) and 4 (via 6) and
+      reports `(1, .bound 0 4)` twice (`c07_string_cex_run`).
+   The log is not a possible output of the Rust builder (`c07_cex_log_not_toposort`); the lenient
+   model `buildL` returns the same automaton on it (`c07_string_cex_lenient`), so the duplicate is
+   not an artefact of the `make_det` guard.
 
-`C07.cexEvs` is such a log for the patterns `$x b`, `a b $x d`, `a b c d` (`C07.cexPats`):
+2. The builder-independent half (any automaton): `c07_string_nodup_of_unamb` — the traversal of a
+   string automaton whose states satisfy `Anch.StateOK` and which is unambiguous under every
+   anchored truth assignment (`C07.Unamb`) reports no match twice; `c07_unamb_of_xinv` —
+   unambiguity follows from the purely structural invariant `C07.XInv` ("two transitions of a
+   state towards different targets are syntactically exclusive — `ConstVal` on the same key with
+   different characters, or the state is deterministic and exactly one of them is the fallback
+   transition — or no pattern id is accepted below both targets; an id accepted at a state is not
+   accepted again below it; ids are recorded once per state"); `strUnambOK` — a decidable,
+   host-independent per-build check of `XInv`; `c07_string_checked`,
+   `c07_strFindMatches_checked` — C07 for every (guarded) build whose automaton passes the check,
+   on every host.
 
-1. `Topo 0` (root): the two `'a' at 0` transitions are fused into state 9; `'b' at 1` (pattern 0)
-   moves under the root's fallback state 5; the heuristic answers "no".
-2. `Topo 9`: the two `'b' at 1` transitions are fused into state 2; "no".
-3. `Topo 2`: tree = `'c' at 2`; `'d' at 3` moves under the fallback state 6; the heuristic answers
-   "yes": state 2 is deterministic, its constraint child 7 gets a copy `'d' at 3 → 4` of the
-   fallback transition (state 4 accepts pattern 1).
-4. `Topo 7`: its own `'d' at 3 → 8` and the copy `'d' at 3 → 4` are fused into state 3, which now
-   accepts patterns 2 and 1; state 4 stays (reachable from the fallback state 6). Pattern 1 is now
-   accepted at the two states 3 and 4 — harmless as long as state 2 is deterministic: 3 is below the
-   constraint child, 4 below the fallback child.
-5. `Topo 0` AGAIN: "yes" this time; the root is determinised and its constraint child 9 gets the
-   copy `'b' at 1 → 1` of the fallback transition.
-6. `Topo 9` AGAIN: `'b' at 1 → 2` and `'b' at 1 → 1` are fused into the fresh, NON-deterministic
-   state 8, which clones the transitions of the deterministic state 2 (then removed). The
-   determinism of 2 is lost: from 8 both `'c' at 2 → 7` and the fallback `→ 6` are followed.
+3. The theorem for the STRICT disciplined replay `Automaton.buildTD` (Model/BuilderT.lean; guards
+   c1T: a state is emitted at most once, after its current predecessors; c1C: every live state has
+   been emitted when the log ends; c4T: merge sets are sibling sets; c1D: no child of an emitted
+   state is deterministic — all measured on real logs, the rare real builds outside are flagged):
+   `c07_string_TD`, `c07_string_nodup_TD`, `c07_string_holds_TD` (= `c07_string_target_TD`) — for
+   EVERY strictly disciplined build of EVERY string pattern list and EVERY host, no match is
+   reported twice and every occurrence exactly once; no per-build check is involved. The invariant
+   `XInv` is carried through every step of the builder (`Proofs/C07X*.lean`, `C07Ids.lean`);
+   `buildTD_imp_buildT`, `strFindMatchesTD_imp`: the strict replay is a restriction of the
+   disciplined and of the undisciplined one, so C01–C06 apply to it.
 
-On the host `abcd` the traversal reaches 3 (via 7) and 4 (via 6) and reports
-`(1, .bound 0 4)` twice (`c07_string_cex_run`, by `rfl`). Hence `c07_string_target_false` and
-`c07_string_nodup_false`. With the empty log (or the in-order log `C07.cexEvsInOrder`) the same
-patterns and host give three matches, once each.
-
-The log is not a possible output of the Rust builder's online toposort: it emits states 0 and 9
-twice (`c07_cex_log_not_toposort`), and state 2 is determinised before its parent 9 is
-normalised for the last time. By `build_imp_buildL` the lenient model `buildL` (no `make_det`
-guard) returns the same automaton on this log, so the duplicate is not an artefact of the guard.
-
-What a true statement needs (not provable by new files only — the replay has to change): the
-replay must check the toposort discipline that the Rust loop relies on ("the changes only affect
-nodes in the future of the root, i.e. nodes on which the invariant does not hold yet"): `Topo s`
-only for a state that has not been emitted and all of whose current predecessors have been
-emitted; and `Merge` events must not re-hang an emitted (normalised) sub-automaton below a state
-that is still to be emitted (the model currently accepts ANY merge set of same-tuple states without
-a path between them, not only the sibling sets `find_mergeable_nodes` computes). Under such a
-discipline every deterministic state is an emitted one, the children of the state being
-normalised are not emitted yet, hence `fuseGroup` never absorbs a deterministic state, and the
-unambiguity invariant (for every lawful `σ` and pattern id `i`, at most one `σ`-reachable state
-accepts `i`) is plausible.
+Only final statements, the executable definitions they mention and non-vacuity examples live
+here; proofs are in `Proofs/C07*.lean` (`C07Unamb`: runs, `Unamb`, `XInv`, first-divergence
+argument; `C07Run`: the traversal; `C07Check`: the checker; `C07XDefs`, `C07XFuse`, `C07XTree`,
+`C07XTreeSpec`, `C07XDet`, `C07XMerge`, `C07XAdd`, `C07Ids`, `C07CharTree`, `C07Many`, `C07XMain`:
+the builder), `Proofs/C08Fuse.lean`, `Proofs/C08BuildT.lean` (from C08: uniqueness after
+`make_constraints_unique`, `buildT_imp_build`).
 -/
 import PmVerif.Props.C01Str
 import PmVerif.Props.TBuild
@@ -56,6 +66,9 @@ import PmVerif.Props.Targets
 import PmVerif.Props.C03
 import PmVerif.Proofs.C07Run
 import PmVerif.Proofs.C07Check
+import PmVerif.Proofs.C07XMain
+import PmVerif.Proofs.C07CharTree
+import PmVerif.Proofs.C07Many
 namespace Pm
 open Automaton
 
@@ -294,6 +307,199 @@ example : ([((1 : Nat), StrPos.unbound), (0, .bound 1 2), (2, .bound 1 3), (2, .
   cases hb'
   exact (c07_string_checked _ _ _ _ M _ _ hb hck hf).1
 
+
+/-! ### C07 for the strict disciplined replay `buildTD` -/
+
+/-- `ManyMatcher::try_from_patterns_with_det_heuristic` replayed with the strict disciplined
+builder `Automaton.buildTD` (Model/BuilderT.lean: every state is emitted exactly once, after its
+current predecessors (c1T, c1C), merge sets are sibling sets (c4T), and no child of an emitted
+state is deterministic (c1D)). -/
+def manyBuildTD {K P Pat : Type} [DecidableEq K] [DecidableEq P]
+    (convert : Pat → Option (List (Constraint K P))) (extra : Pat → List K)
+    (toTree : List (Constraint K P) → Option (CTree (Constraint K P))) (req : K → List K)
+    (fuel : Nat) (fallbackFail : Bool) (pats : List Pat) (evs : List Ev) :
+    Option (R (Many K P)) :=
+  match manyInputs convert extra fallbackFail pats 0 with
+  | none => none
+  | some inputs =>
+    some (match Automaton.buildTD toTree req fuel inputs evs with
+      | .error e => .error e
+      | .ok a => .ok ⟨a, inputs.map (·.1)⟩)
+
+/-- `strFindMatches` with the strict disciplined replay. -/
+def strFindMatchesTD (ps : List (List CharVar)) (evs : List Ev) (h : List Nat) (fuel : Nat) :
+    R (List (Match StrPos)) :=
+  match manyBuildTD (fun p => some (strConstraints p)) (fun _ => []) (charTree natLt) strReq fuel
+      true ps evs with
+  | none => .error (.panic "unreachable: string patterns always convert")
+  | some (.error e) => .error e
+  | some (.ok m) => m.findMatches strDomain h fuel
+
+/-- C07, strings, for the strict replay: … exactly once. -/
+def c07_string_target_TD : Prop :=
+  ∀ (ps : List (List CharVar)) (evs : List Ev) (h : List Nat) (fuel : Nat) ms,
+    strFindMatchesTD ps evs h fuel = .ok ms → ∀ i p, ps[i]? = some p →
+      (p = [] → ms.count (i, StrPos.unbound) = 1) ∧
+      (p ≠ [] → ∀ a, ms.count (i, StrPos.bound a p.length) = if occursStr p h a then 1 else 0)
+
+/-- **Whenever the strict build succeeds, the disciplined build `buildT` returns the same
+automaton** (and hence so do `build` and the lenient `buildL`: `C08.buildT_imp_build`,
+`build_imp_buildL`). -/
+theorem buildTD_imp_buildT {K P : Type} [DecidableEq K] [DecidableEq P]
+    (toTree : List (Constraint K P) → Option (CTree (Constraint K P))) (req : K → List K)
+    (fuel : Nat) (patterns : List (Nat × List (Constraint K P) × List K)) (evs : List Ev)
+    (A : Automaton K P) (h : Automaton.buildTD toTree req fuel patterns evs = .ok A) :
+    Automaton.buildT toTree req fuel patterns evs = .ok A :=
+  C07.buildTD_imp_buildT h
+
+/-- A successful strict string build is a successful build (so `strProg_built`,
+`c01_c02_string`, … apply), its pattern ids are pairwise different, and — the new fact — its
+automaton satisfies the structural unambiguity invariant and records every id once per state. -/
+theorem c07_manyBuildTD_inv {ps : List (List CharVar)} {evs : List Ev} {fuel : Nat}
+    {M : Many Nat CharPred}
+    (hb : manyBuildTD (fun p => some (strConstraints p)) (fun _ => ([] : List Nat))
+      (charTree natLt) strReq fuel true ps evs = some (.ok M)) :
+    manyBuild (fun p => some (strConstraints p)) (fun _ => ([] : List Nat))
+      (charTree natLt) strReq fuel true ps evs = some (.ok M) ∧
+    C07.XInv (fun k1 k2 => C07.charMx k1 k2 = true) M.automaton := by
+  unfold manyBuildTD at hb
+  unfold manyBuild
+  cases hi : manyInputs (fun p => some (strConstraints p)) (fun _ => ([] : List Nat)) true ps 0 with
+  | none => simp [hi] at hb
+  | some inputs =>
+    simp only [hi] at hb ⊢
+    cases hbb : Automaton.buildTD (charTree natLt) strReq fuel inputs evs with
+    | error e => simp [hbb] at hb
+    | ok A =>
+      simp only [hbb, Option.some.injEq, Except.ok.injEq] at hb
+      subst hb
+      have hnd := (C07.manyInputs_ids _ _ _ ps 0 inputs hi).1
+      obtain ⟨X, hN⟩ := C07.buildTD_xb (Mx := fun k1 k2 => C07.charMx k1 k2 = true)
+        C07.charMx_irrefl (C07.flatTreeHyp_charTree natLt) (c03_treeOK_char natLt _) hnd hbb
+      have hbuild := C08.buildT_imp_build (C07.buildTD_imp_buildT hbb)
+      simp only [hbuild]
+      exact ⟨trivial, X.xinv hN⟩
+
+/-- **C07 for strictly disciplined string builds.** Every strictly disciplined build of a string
+pattern list — any admissible event log, i.e. any hash orders and heuristic answers — yields a
+matcher that on EVERY host reports no match twice, i.e. every occurrence of every pattern exactly
+once. No per-build check is involved. -/
+theorem c07_string_TD (ps : List (List CharVar)) (evs : List Ev) (fuel fuel' : Nat)
+    (M : Many Nat CharPred) (h : List Nat) (ms : List (Match StrPos))
+    (hb : manyBuildTD (fun p => some (strConstraints p)) (fun _ => ([] : List Nat))
+      (charTree natLt) strReq fuel true ps evs = some (.ok M))
+    (hf : M.findMatches strDomain h fuel' = .ok ms) :
+    ms.Nodup ∧ ∀ i p, ps[i]? = some p →
+      (p = [] → ms.count (i, StrPos.unbound) = 1) ∧
+      (p ≠ [] → ∀ a, ms.count (i, StrPos.bound a p.length) = if occursStr p h a then 1 else 0) := by
+  obtain ⟨hb', X⟩ := c07_manyBuildTD_inv hb
+  obtain ⟨seen, hr⟩ : ∃ seen, run strDomain M.automaton h fuel' = .ok (ms, seen) := by
+    unfold Many.findMatches at hf
+    cases hrun : run strDomain M.automaton h fuel' with
+    | error e => rw [hrun] at hf; cases hf
+    | ok r =>
+      rw [hrun] at hf
+      cases hf
+      exact ⟨r.2, rfl⟩
+  obtain ⟨inputs, hbb⟩ := c07_manyBuild_inv hb'
+  have ok : OrdersOK M.automaton :=
+    build_ordersOK _ _ _ _ _ _ (fun _ => true) (c03_treeOK_char natLt _) hbb
+  have hnd : ms.Nodup :=
+    c07_string_nodup_of_unamb M.automaton ps h fuel' ms seen (strProg_built ps evs fuel M hb')
+      (fun a => c07_unamb_of_xinv M.automaton ok X h a) X.nodup hr
+  exact ⟨hnd, c07_counts_of_nodup ps h ms hnd (c01_c02_string ps evs fuel fuel' M h ms hb' hf)⟩
+
+/-- Unfolding of the packaged matcher. -/
+theorem c07_strFindMatchesTD_inv {ps : List (List CharVar)} {evs : List Ev} {h : List Nat}
+    {fuel : Nat} {ms : List (Match StrPos)} (hf : strFindMatchesTD ps evs h fuel = .ok ms) :
+    ∃ M, manyBuildTD (fun p => some (strConstraints p)) (fun _ => ([] : List Nat))
+        (charTree natLt) strReq fuel true ps evs = some (.ok M) ∧
+      M.findMatches strDomain h fuel = .ok ms := by
+  unfold strFindMatchesTD at hf
+  cases hb : manyBuildTD (fun p => some (strConstraints p)) (fun _ => ([] : List Nat))
+      (charTree natLt) strReq fuel true ps evs with
+  | none => rw [hb] at hf; cases hf
+  | some r =>
+    cases r with
+    | error e => rw [hb] at hf; cases hf
+    | ok M =>
+      rw [hb] at hf
+      exact ⟨M, rfl, hf⟩
+
+/-- The strict replay is a restriction of `strFindMatches`: the same result whenever it
+succeeds, so the theorems about `strFindMatches` (C01–C04, C06) apply to it. -/
+theorem strFindMatchesTD_imp (ps : List (List CharVar)) (evs : List Ev) (h : List Nat)
+    (fuel : Nat) (ms : List (Match StrPos)) (hf : strFindMatchesTD ps evs h fuel = .ok ms) :
+    strFindMatches ps evs h fuel = .ok ms := by
+  obtain ⟨M, hb, hfm⟩ := c07_strFindMatchesTD_inv hf
+  unfold strFindMatches
+  rw [(c07_manyBuildTD_inv hb).1]
+  exact hfm
+
+/-- **C07, strings: no match is reported twice** by the strictly disciplined matcher, whatever
+the heuristic answers, hash orders (admissible event log) and host. -/
+theorem c07_string_nodup_TD (ps : List (List CharVar)) (evs : List Ev) (h : List Nat) (fuel : Nat)
+    (ms : List (Match StrPos)) (hr : strFindMatchesTD ps evs h fuel = .ok ms) : ms.Nodup := by
+  obtain ⟨M, hb, hfm⟩ := c07_strFindMatchesTD_inv hr
+  exact (c07_string_TD ps evs fuel fuel M h ms hb hfm).1
+
+/-- **C07, strings** (`c07_string_target_TD`) is a theorem: each occurrence of each pattern is
+reported exactly once. -/
+theorem c07_string_holds_TD : c07_string_target_TD := by
+  intro ps evs h fuel ms hf
+  obtain ⟨M, hb, hfm⟩ := c07_strFindMatchesTD_inv hf
+  exact (c07_string_TD ps evs fuel fuel M h ms hb hfm).2
+
+/-! ### Non-vacuity for the strict replay -/
+
+/-- A complete, strictly disciplined log for the patterns `ab`, the empty pattern, `a$x$x`
+(`exStrPatterns2`): the root is fused and determinised, so is its fused child 5 (with a fallback
+state), then the remaining states are emitted, each once and after its predecessors. -/
+def C07.exEvsTD : List Ev :=
+  [.topo 0, .group 0 [0, 2], .detAsk 0, .detYes 0, .iterEnd 0,
+   .topo 5, .detAsk 5, .detYes 5, .iterEnd 5,
+   .topo 2, .iterEnd 2, .topo 3, .iterEnd 3, .topo 4, .iterEnd 4]
+
+/-- A complete, strictly disciplined log for the patterns of the counterexample (`$x b`,
+`a b $x d`, `a b c d`): six states are determinised; the fallback transition `'b' at 1` of the
+root is copied onto its constraint child 9 and fused there with the child's own ones
+(`group 9 [1, 2, 8]`) BEFORE the fused state is emitted and determinised. -/
+def C07.cexEvsTD : List Ev :=
+  [.topo 0, .group 0 [1, 4], .detAsk 0, .detYes 0, .iterEnd 0,
+   .topo 5, .detAsk 5, .detYes 5, .iterEnd 5,
+   .topo 9, .group 9 [1, 2, 8], .detAsk 9, .detYes 9, .iterEnd 9,
+   .topo 1, .iterEnd 1, .topo 2, .detAsk 2, .detYes 2, .iterEnd 2,
+   .topo 6, .detAsk 6, .detYes 6, .iterEnd 6,
+   .topo 7, .group 7 [7, 1], .detAsk 7, .detYes 7, .iterEnd 7,
+   .topo 3, .iterEnd 3, .topo 4, .iterEnd 4]
+
+set_option maxRecDepth 8192 in
+/-- The strict replay accepts both logs (two resp. six deterministic states) and reports four
+resp. five matches; it REJECTS the counterexample log of the undisciplined replay (guard c1T: the
+root is emitted twice). -/
+theorem c07_TD_examples :
+    strFindMatchesTD exStrPatterns2 C07.exEvsTD [120, 97, 98, 98, 97, 99, 99] 100 =
+      .ok [(1, .unbound), (0, .bound 1 2), (2, .bound 1 3), (2, .bound 4 3)] ∧
+    strFindMatchesTD C07.cexPats C07.cexEvsTD [97, 98, 99, 100, 97, 98, 120, 100] 100 =
+      .ok [(0, .bound 0 2), (0, .bound 4 2), (2, .bound 0 4), (1, .bound 0 4), (1, .bound 4 4)] ∧
+    strFindMatchesTD C07.cexPats C07.cexEvs C07.cexHost 100 =
+      .error (.guard "c1T: state emitted twice or before one of its predecessors") :=
+  ⟨by rfl, by rfl, by rfl⟩
+
+/-- `c07_string_nodup_TD` / `c07_string_holds_TD` applied to the second run: no duplicates, and
+pattern 1 (`a b $x d`) is counted once at each of the anchors 0 and 4 where it occurs, zero times
+at anchor 1. -/
+example :
+    ([(0, .bound 0 2), (0, .bound 4 2), (2, .bound 0 4), (1, .bound 0 4), (1, .bound 4 4)] :
+      List (Match StrPos)).Nodup ∧
+    ∀ a, ([(0, .bound 0 2), (0, .bound 4 2), (2, .bound 0 4), (1, .bound 0 4), (1, .bound 4 4)] :
+      List (Match StrPos)).count (1, .bound a 4) =
+        if occursStr [.lit 97, .lit 98, .var 0, .lit 100] [97, 98, 99, 100, 97, 98, 120, 100] a
+        then 1 else 0 :=
+  ⟨c07_string_nodup_TD _ _ _ _ _ c07_TD_examples.2.1,
+   (c07_string_holds_TD _ _ _ _ _ c07_TD_examples.2.1 1
+      [.lit 97, .lit 98, .var 0, .lit 100] (by decide)).2 (by decide)⟩
+
 end Pm
 
 section AxiomAudit
@@ -305,4 +511,9 @@ open Pm
 #print axioms c07_string_checked
 #print axioms c07_strFindMatches_checked
 #print axioms c07_check_examples
+#print axioms c07_string_TD
+#print axioms c07_string_nodup_TD
+#print axioms c07_string_holds_TD
+#print axioms strFindMatchesTD_imp
+#print axioms c07_TD_examples
 end AxiomAudit
